@@ -136,6 +136,13 @@ package fingerprint
 //@ ghost var refreshed bool scratch
 
 //@ func (*ChecksumChecker).IsUpToDate
+// the record of a task is read from, and REPLACED AS A WHOLE under, its own name: os.WriteFile truncates, so nothing
+// of a superseded (longer) record survives in the file - a record that keeps an old tail never equals a computed
+// checksum again, and the task would run on every invocation
+//@   site os.ReadFile#0 requires arg0 == checksumFile                                                                [C05,C04]
+//@   site os.WriteFile#0 requires arg0 == checksumFile && !checker.dry                                               [C05,C04,C12]
+//@   nosite os.OpenFile                                                                                              [C05,C04]
+//@   nosite os.Create                                                                                                [C05,C04]
 //@   site glob#1 ghost genOK(t, $i) := result.1 == nil && len(result.0) > 0
 //@   loop 1 invariant forall k {genOK(t, k)} :: 0 <= k && k < $i ==> t.Generates[k].Negate || genOK(t, k)            [C05]
 //@   ensures result.0 && result.1 == nil ==>
